@@ -41,7 +41,22 @@ type staticNoMarker struct {
 	B K1
 }
 
-var staticStructs = []reflect.Type{reflect.TypeOf(staticA{}), reflect.TypeOf(staticB{}), reflect.TypeOf(staticC{})}
+// marker structs that embed further exported types besides the marker: those are ordinary fields
+type EmbInner struct{ X int }
+type staticD struct {
+	am.Struct
+	EmbInner
+	B   K1
+	*K2 `argmapper:"ptr"`
+}
+type staticE struct {
+	am.Struct
+	I0 `argmapper:",typeOnly,subtype=x"`
+	A  K0
+}
+
+var staticStructs = []reflect.Type{reflect.TypeOf(staticA{}), reflect.TypeOf(staticB{}), reflect.TypeOf(staticC{}),
+	reflect.TypeOf(staticD{}), reflect.TypeOf(staticE{})}
 
 var fieldNames = []string{"A", "B", "Cc", "Dx", "Name", "VALUE", "Xy", "Zed"}
 var tagNames = []string{"", "", "x", "Foo", "bAr", "a"}
@@ -262,7 +277,7 @@ func genSig(w *bufio.Writer, r *rng, id, size int) {
 
 // ---------------------------------------------------------------- C15: vset
 
-var vsetNames = []string{"a", "B", "val", "Port", "xY", "n1", "é"}
+var vsetNames = []string{"a", "B", "val", "Port", "xY", "n1", "é", "type", "range", "func"}
 
 // names / subtypes that cannot be represented in a struct field / struct tag
 var vsetNamesBad = []string{"x-y", "1x", "a b", "_u", "a,b"}
